@@ -156,13 +156,15 @@ CLAIMS = {
         "DESIGN.md section 3, C12",
     ),
     "C14": (
-        "partial evaluation of whole runs under different request histories; comparison of per-point normal forms; aliasing checks",
+        "partial evaluation of whole runs under different request histories; comparison of per-point normal forms; aliasing checks; syntax-tree dependency analysis of memo keys",
         "Decides: for a lattice of (observable triple, scheme, TMC, scale variations), the operator (values and errors, every order key) folded "
         "for each requested (observable, point) is the same normal form across nine histories - alone, reversed, duplicates and repeated Q2 "
         "values, before/after other structure functions or cross sections that populate the shared caches, subsets, a point whose Nachtmann "
         "partner is requested first, a point with a different number of active flavours evaluated alone - and across two get_result() calls; a "
         "history that fails while another succeeds is a violation; no two points of an output, two outputs, or an output and the memoised "
-        "results share an array. NOT decided: bit-level reproducibility of the floating-point quadrature and summation order.",
+        "results share an array; (state) every store into process-wide state (module-level, class-level, default-argument containers, class "
+        "attributes written in functions) and every lookup-then-store memo on an object is keyed by all inputs of the stored value. "
+        "NOT decided: bit-level reproducibility of the floating-point quadrature and summation order.",
         "Trusted: CPython ast; yadsa partial evaluator (dict/list/cache and in-place array semantics modelled on the host interpreter/numpy); "
         "quad, LeProHQ and eko basis functions are deterministic pure functions.",
         "DESIGN.md section 3, C14",
